@@ -696,26 +696,20 @@ func (server *SugarDB) randomKey(ctx context.Context) string {
 
 	database := ctx.Value("Database").(int)
 
-	_max := len(server.store[database])
-	if _max == 0 {
+	// Only keys that have not expired are candidates.
+	now := server.clock.Now()
+	candidates := make([]string, 0, len(server.store[database]))
+	for key, entry := range server.store[database] {
+		if entry.ExpireAt != (time.Time{}) && entry.ExpireAt.Before(now) {
+			continue
+		}
+		candidates = append(candidates, key)
+	}
+	if len(candidates) == 0 {
 		return ""
 	}
 
-	randnum := rand.Intn(_max)
-	i := 0
-	var randkey string
-
-	for key, _ := range server.store[database] {
-		if i == randnum {
-			randkey = key
-			break
-		} else {
-			i++
-		}
-
-	}
-
-	return randkey
+	return candidates[rand.Intn(len(candidates))]
 }
 
 func (server *SugarDB) getObjectFreq(ctx context.Context, key string) (int, error) {
